@@ -310,6 +310,9 @@ def run_case(run, tap, stream, index, rng):
             height = np.full(lon2d.shape, 1234.5)
             c3, r3 = vd.longitude_continuity([lon2d, lat2d, height], region)
             ci, ri = vd.longitude_continuity([lon2d.astype("int64"), lat2d.astype("int64")], [int(v) for v in region])
+            cf, rf = vd.longitude_continuity((np.asfortranarray(lon2d), np.ascontiguousarray(lat2d.T).T), tuple(region))
+            if not (np.array_equal(cf[0], c2d[0]) and np.array_equal(np.asarray(rf, dtype=float), np.asarray(r2d, dtype=float))):
+                run.violation("forms", "the result depends on the memory layout of the coordinate arrays", {"region": region}, key="forms-layout")
             run.evaluated("forms")
             same_region = all(np.array_equal(np.asarray(only, dtype=float), np.asarray(r, dtype=float)) for r in (empty, r2d, r3, ri))
             same_lon = np.array_equal(c2d[0], c3[0]) and np.array_equal(np.asarray(ci[0], dtype=float), c2d[0]) and c2d[0].shape == lon2d.shape
